@@ -23,6 +23,7 @@ from bundler_fakes import Det, Dev
 # ============================================================================================ driving the real engine
 
 _RE_CLASSES = None
+_SHARED_RE = None
 
 
 def _classes():
@@ -210,12 +211,14 @@ class Harness:
 
         LRE, LB = _classes()
         LB.H = self
-        RE = LRE({}, context_managers=[])
+        global _SHARED_RE
+        if _SHARED_RE is None or _SHARED_RE.state != "idle":
+            _SHARED_RE = LRE({}, context_managers=[])  # one engine (one loop thread) serves all cases
+        RE = _SHARED_RE
         self.RE = RE
         RE.record_interruptions = bool(self.case.get("cfg", {}).get("ri", False))
-        if self.case.get("cfg", {}).get("strict"):
-            RE._require_stream_declaration = True
-        RE.subscribe(self.on_doc)
+        RE._require_stream_declaration = bool(self.case.get("cfg", {}).get("strict"))
+        token = RE.subscribe(self.on_doc)
         items = self.case["plan"]
         h = self
         pending_during = []
@@ -301,6 +304,11 @@ class Harness:
         finally:
             lg.setLevel(old)
             LB.H = None
+            RE.msg_hook = None
+            try:
+                RE.unsubscribe(token)
+            except Exception:
+                _SHARED_RE = None
         return self
 
     def _last_pause_item(self):
@@ -317,8 +325,7 @@ class Harness:
             return {"cmd": "null"}
         if c == "read":
             d = msg.obj
-            ks = d.bad_read if d.bad_read is not None else d.keys
-            return {"cmd": "read", "obj": d.name, "reading": [[k, d.value] for k in ks]}
+            return {"cmd": "read", "obj": d.name, "reading": d.peek()}
         if c == "configure":
             return {"cmd": "configure", "obj": msg.obj.name, "cfg": sorted(map(list, msg.args[0].items()))}
         if c == "create":
